@@ -133,7 +133,7 @@ func (s *SubRing) MulCoeffsMontgomeryThenSub(p1, p2, p3 []uint64) {
 	mulcoeffsmontgomerythensubvec(p1, p2, p3, s.Modulus, s.MRedConstant)
 }
 
-// MulCoeffsMontgomeryThenSubLazy evaluates p3 = p3 - p1*p2 (mod modulus) with p3 in range [0, 2*modulus-2].
+// MulCoeffsMontgomeryThenSubLazy evaluates p3 = p3 - p1*p2 (mod modulus) with p3 in range [0, 2*modulus-1].
 // Iteration is done with respect to len(p1).
 // All input must have a size which is a multiple of 8.
 func (s *SubRing) MulCoeffsMontgomeryThenSubLazy(p1, p2, p3 []uint64) {
@@ -147,7 +147,7 @@ func (s *SubRing) MulCoeffsMontgomeryLazyThenSubLazy(p1, p2, p3 []uint64) {
 	mulcoeffsmontgomerylazythensublazyvec(p1, p2, p3, s.Modulus, s.MRedConstant)
 }
 
-// MulCoeffsMontgomeryLazyThenNeg evaluates p3 = - p1*p2 (mod modulus) with p3 in range [0, 2*modulus-2].
+// MulCoeffsMontgomeryLazyThenNeg evaluates p3 = - p1*p2 (mod modulus) with p3 in range [0, 2*modulus-1].
 // Iteration is done with respect to len(p1).
 // All input must have a size which is a multiple of 8.
 func (s *SubRing) MulCoeffsMontgomeryLazyThenNeg(p1, p2, p3 []uint64) {
